@@ -71,6 +71,9 @@ def run_driver(lines, timeout=900):
     return out
 
 
+MAX_TIMEOUTS_PER_SHARD = 3
+
+
 class CaseTimeout(Exception):
     pass
 
@@ -98,11 +101,17 @@ def _shard_worker(args):
     lines = [c[0] for c in cases]
     model = run_driver(lines)
     res = []
+    ntimeouts = 0
     for (line, payload), m in zip(cases, model):
+        if ntimeouts >= MAX_TIMEOUTS_PER_SHARD:
+            res.append((line, payload, m, 'timeout'))
+            continue
         try:
             r = call_with_timeout(fn, payload, per_case_timeout)
         except RecursionError:
             r = 'crash RecursionError'
+        if r == 'timeout' or (isinstance(r, str) and r.startswith('crash CaseTimeout')):
+            ntimeouts += 1
         res.append((line, payload, m, r))
     return res
 
@@ -141,11 +150,18 @@ def _pmap_worker(args):
     mod = __import__(modname, fromlist=['x'])
     fn = getattr(mod, fname)
     out = []
+    ntimeouts = 0
     for p in payloads:
+        if ntimeouts >= MAX_TIMEOUTS_PER_SHARD:
+            out.append('timeout')          # circuit breaker: a code change that makes a whole family hang must not make the check run for hours
+            continue
         try:
-            out.append(call_with_timeout(fn, p, per_case_timeout))
+            r = call_with_timeout(fn, p, per_case_timeout)
         except RecursionError:
-            out.append('crash RecursionError')
+            r = 'crash RecursionError'
+        if r == 'timeout':
+            ntimeouts += 1
+        out.append(r)
     return out
 
 
